@@ -109,6 +109,17 @@ class GOMoveIterationBoundariesInsideKernelTrans(Transformation):
                 f"can only be applied to 'GOKern' nodes, but found "
                 f"'{type(node).__name__}'.")
 
+        # The loops around the kernel are changed to iterate over the whole
+        # field: every other kernel in the same loop nest would lose its
+        # iteration space.
+        inner_loop = node.ancestor(Loop)
+        outer_loop = inner_loop.ancestor(Loop) if inner_loop else None
+        if outer_loop and len(outer_loop.walk(GOKern)) > 1:
+            raise TransformationError(
+                f"Error in {self.name} transformation. The loop nest of "
+                f"kernel '{node.name}' contains other kernels (fused loops) "
+                f"whose iteration space would be changed.")
+
     def apply(self, node, options=None):
         '''Apply this transformation to the supplied node.
 
